@@ -105,11 +105,18 @@ func c19Corpus(r *h.Rng, tag string) *gen.Corpus {
 	corp := gen.MakeCorpus(r, gen.CorpusOpt{N: r.LogInt(10, 400), Vocab: 3, MIDSpread: r.LogInt(3, 2000), MaxToks: 1, Agg: true, Groups: r.Range(1, 12), Tag: tag})
 	// group values that stress the JSON/key encoding of persisted partial results
 	ren := map[string]string{"ga": "a|b", "gb": `q"x`, "g-c": "ünï", "g.d": "|lead|"}
-	for _, d := range corp.Docs {
+	for i, d := range corp.Docs {
 		for i := range d.Toks {
 			if d.Toks[i].F == "g1" {
 				d.Toks[i].V = ren[d.Toks[i].V]
 			}
+		}
+		// words of a text field: a phrase query on it is a conjunction of words only when the query is parsed with the mapping
+		if i%3 != 2 {
+			d.Toks = append(d.Toks, model.Tok{F: "t1", V: "phrasea"})
+		}
+		if i%3 == 0 {
+			d.Toks = append(d.Toks, model.Tok{F: "t1", V: "phraseb"})
 		}
 	}
 	return corp
@@ -199,6 +206,11 @@ func runC19(w *h.W, batch int) {
 	for qi := 0; qi < nReq; qi++ {
 		qr := r.Fork()
 		ar, q := c19Request(qr, corp, fmt.Sprintf("req-%d-%d", batch, qi))
+		if qi == nReq-1 {
+			// a phrase on a text field (two words = a conjunction under the mapping; one unknown token without it)
+			q = &model.Q{Op: "and", Kids: []*model.Q{{Op: "lit", Field: "t1", Pat: "phrasea"}, {Op: "lit", Field: "t1", Pat: "phraseb"}}}
+			ar.Query = `t1:"PhraseA phraseb"`
+		}
 		arg, _ := json.Marshal(ar)
 		exp := model.Search(corp.Docs, model.Req{Q: q, From: ar.From, To: ar.To, Asc: ar.Asc, Limit: 1 << 30})
 		judge := func(evs []phaseEvent) (string, bool) {
@@ -444,7 +456,8 @@ func c19Proxy(w *h.W, batch int) {
 		cr := r.Fork()
 		corp := c19Corpus(cr, fmt.Sprintf("b%dc%d", batch, ci))
 		shards := cr.Range(1, 3)
-		cl, err := sdb.OpenCluster(w.Sub(fmt.Sprintf("c%d", ci)), shards, 1, sdb.Opt{Mapping: StoreMapping()})
+		replicas := cr.Range(1, 2)
+		cl, err := sdb.OpenCluster(w.Sub(fmt.Sprintf("c%d", ci)), shards, replicas, sdb.Opt{Mapping: StoreMapping()})
 		if err != nil {
 			if w.Begin(map[string]any{"step": "open"}) {
 				w.Violation("C19:store-did-not-start", map[string]any{"error": err.Error()})
@@ -459,7 +472,9 @@ func c19Proxy(w *h.W, batch int) {
 		}
 		for s := range parts {
 			gs := splitDocs(cr, parts[s], cr.Range(1, 3), "random")
-			loadFractions(cl.Stores[s][0], cr, gs)
+			for rep := 0; rep < replicas; rep++ {
+				loadFractions(cl.Stores[s][rep], cr, gs)
+			}
 		}
 		mp, _ := mappingprovider.New("", mappingprovider.WithMapping(StoreMapping()))
 		srv := proxyapi.NewGrpcV1ForVerif(proxyapi.APIConfig{SearchTimeout: time.Minute, ExportTimeout: time.Minute}, cl.Ing, mp)
@@ -469,9 +484,27 @@ func c19Proxy(w *h.W, batch int) {
 			exp := model.Search(corp.Docs, model.Req{Q: q, From: ar.From, To: ar.To, Asc: ar.Asc, Limit: 1 << 30})
 			surface := h.Pick(qr, []string{"proxy-library", "proxy-handler"})
 			size := h.Pick(qr, []int{0, 3, len(corp.Docs) + 5})
-			desc := map[string]any{"request": ar, "surface": surface, "shards": shards, "size": size}
+			// with two replicas: the first replica of a seeded set of shards is unreachable while the search is started, so the
+			// search lives on the second one; fetching must find it there
+			var downAtStart []string
+			if replicas > 1 {
+				for s := 0; s < shards; s++ {
+					if qr.Bool() {
+						downAtStart = append(downAtStart, fmt.Sprintf("store-%d-0", s))
+					}
+				}
+			}
+			desc := map[string]any{"request": ar, "surface": surface, "shards": shards, "replicas": replicas, "down_at_start": downAtStart, "size": size}
 			if !w.Begin(desc) {
 				continue
+			}
+			for _, hst := range downAtStart {
+				cl.Down[hst].Store(true)
+			}
+			upAgain := func() {
+				for _, hst := range downAtStart {
+					cl.Down[hst].Store(false)
+				}
 			}
 			ord := seq.DocsOrderDesc
 			if ar.Asc {
@@ -488,6 +521,7 @@ func c19Proxy(w *h.W, batch int) {
 				var fr search.FetchAsyncSearchResultResponse
 				pn := h.Guard(func() {
 					resp, err = cl.Ing.StartAsyncSearch(ctx, search.AsyncRequest{Query: ar.Query, From: time.UnixMilli(int64(ar.From)), To: time.UnixMilli(int64(min(ar.To, 1<<50))), Order: ord, Aggregations: paggs, HistogramInterval: seq.MID(ar.Interval)})
+					upAgain()
 					if err != nil {
 						return
 					}
@@ -562,6 +596,7 @@ func c19Proxy(w *h.W, batch int) {
 				pn := h.Guard(func() {
 					var st *seqproxyapi.StartAsyncSearchResponse
 					st, err = srv.StartAsyncSearch(ctx, &seqproxyapi.StartAsyncSearchRequest{Query: mkQuery(), Aggs: pbAggs, Hist: hist, Order: pord})
+					upAgain()
 					if err != nil {
 						return
 					}
